@@ -51,6 +51,14 @@ def gen(rng, n):
             if rng.chance(1, 2):
                 d["RESET_AT_BYTES"] = 1
             d.pop("NDGRAM", None)
+        if rng.chance(1, 4):
+            # loss-free, with a Retry forced on the resumed connection and an early stream that is
+            # reset at once: its RESET_STREAM must survive the Retry
+            d.update({"ZERO_RTT": 1, "RETRY": 2, "LOSS": 0, "DUP": 0, "RESET_AT_BYTES": rng.choice([1, 300]),
+                      "NBIDI": rng.range(0, 1), "NUNI": rng.range(1, 2), "STREAM_BYTES": rng.choice([700, 3000]),
+                      "ALL_STREAMS_SEEN": 1})
+            for k in ("DROP_MASK", "DROP_MASK_DIR", "DUP_MASK", "NO_REDO", "EARLY_STOP", "SERVER_RWND", "NDGRAM", "SEND_WINDOW"):
+                d.pop(k, None)
         w = min(d.get("SERVER_RWND", 1 << 40), d.get("SEND_WINDOW", 1 << 40))
         if d["STREAM_BYTES"] > 20 * w:
             d["STREAM_BYTES"] = 20 * w
